@@ -198,6 +198,7 @@ type acct struct {
 	returned [nPayloads]int  // times returned by a retrieval
 	expect   [nPayloads]bool // queued and neither returned nor removed since: must be retrievable
 	corrupt  bool            // an undecodable body was planted: retrieval may fail as a whole
+	planted  [nPayloads]bool // an order record was planted by hand (a state the API cannot reach): no eligibility claim
 }
 
 func checkRetrieval(c *vh.Ctx, cs Case, a *acct, o Op, r result, probe bool) {
@@ -305,6 +306,7 @@ func runSeq(c *vh.Ctx, cs Case) {
 			a.queued[o.P]++ // a scheduling record planted by hand counts as a queueing
 			pre = append(pre, vh.App("RawQueue", vh.NU(o.Ts), hN(o.P)))
 		case "rawo":
+			a.planted[o.P] = true
 			pre = append(pre, vh.App("RawOrder", hN(o.P)))
 		case "rawp":
 			b := uint64(0)
@@ -334,7 +336,7 @@ func runSeq(c *vh.Ctx, cs Case) {
 				break
 			}
 			a.queued[o.P]++
-			a.expect[o.P] = true
+			a.expect[o.P] = !a.planted[o.P]
 			fresh := 0
 			for _, e := range dump().Queue {
 				if !prev[e] {
@@ -350,7 +352,7 @@ func runSeq(c *vh.Ctx, cs Case) {
 				c.Fail("queue-many-entries", "one queueing wrote several scheduling records", cs)
 			}
 			// queueing makes the transaction retrievable and keeps/refreshes a body for it
-			if ver, err := store.CacheGetTransaction(poolHash[o.P]); err != nil || ver == nil {
+			if ver, err := store.CacheGetTransaction(poolHash[o.P]); (err != nil || ver == nil) && !a.planted[o.P] {
 				c.Fail("queue-no-body", "no readable body after queueing", cs)
 			}
 		case "store":
